@@ -115,6 +115,18 @@ CLAIMS["C10"] = dict(
     technique="static analysis: symbolic codec composition + who-may-write + byte/table agreement between Python literals and JSON definitions",
     design="DESIGN.md section 5, C10")
 
+CLAIMS["C14"] = dict(
+    text="Constructors of the constant helpers are expanded symbolically (explicit __init__ interpreted to a field map, sugar types "
+         "expanded to general sums) and compared with the specification table: Tuple/Some/None/Left/Right/UnitSum/bool values, "
+         "Tuple/Option/Either/UnitSum types, Some/Left/Right/Continue/Break tag ops; for each value helper the inhabitation equation "
+         "typ.variant_rows[tag] == [v.type_() for v in vals] is decided on the expanded terms. type_() plumbing, the six std "
+         "extension constants (reported std type, defining extension, element embedding, array size = len, integer width) and the "
+         "Const -> LoadConst path are table-checked.",
+    note="Explicitly not claimed: inhabitation for the unchecked general val.Sum(tag, typ, vals) constructor (a property of run-time "
+         "values); tag-in-range for UnitSum(tag, size) (run-time integers).",
+    technique="static analysis: symbolic constructor expansion + normal-form table comparison + std definition model",
+    design="DESIGN.md section 5, C14")
+
 NOT_APPLICABLE_REASON: dict[str, str] = {}
 
 
